@@ -169,8 +169,9 @@ class C12(Sim):
         "array, e in {-40,-8,-3,0,3,8,40} per run (optionally +-3 per array): products of up to six coordinates stay inside the normal "
         "float64 range, so no law is evaluated where overflow/underflow is legitimate; infinities only occur as corners of AABB.infinite",
         "laws that need non-degenerate inputs are evaluated only when the exact rational classification says so with a margin: "
-        "cotan (|sin|,|cos| of the angle >= 1e-3 for the reciprocal-tangent link, |sin| >= 1e-3 for the exact value), signed-angle "
-        "antisymmetry (|sin(V1,V2)| >= 1e-3 and |cos(V1xV2, N)| >= 1e-3), circumcenter (sine of every angle >= 0.05), "
+        "cotan (|sin|,|cos| of the angle >= 1e-3 for the reciprocal-tangent link, |sin| >= 1e-3 for the exact value, both sides "
+        "longer than 1e-3 of the largest coordinate), signed-angle "
+        "antisymmetry (|sin(V1,V2)| >= 1e-3 and |cos(V1xV2, N)| >= 1e-3), circumcenter (sine of every angle >= 0.05, every edge longer than 1e-3 of the largest coordinate), "
         "rotate_around_axis (axis != 0), roots (c != 0, 1 <= n <= 8), normalized (vec != 0); degenerate inputs are still executed, "
         "for the side-effect invariants only",
         "project / distance / union laws are evaluated on non-empty closed boxes (mini <= maxi); intersection with an inverted operand "
@@ -1480,15 +1481,21 @@ class C12(Sim):
         cr = xcross(u, v)
         s2, c, uu, vv = xdot(cr, cr), xdot(u, v), xdot(u, u), xdot(v, v)
         m2 = MARGIN * MARGIN
-        if not (uu > 0 and vv > 0 and s2 >= m2 * uu * vv):
+        M = Fraction(self.mag((i, j, k)))
+        # degenerate (angle 0 / pi, or undefined) or ill-conditioned (a side shorter than 1e-3 of the coordinates, so that
+        # forming B->A, B->C in float64 already loses the angle): side effects only
+        if not (uu > 0 and vv > 0 and s2 >= m2 * uu * vv and min(uu, vv) >= m2 * M * M):
             self.probes["degenerate_triangle"] += 1
-            return self._done(out)  # angle 0 / pi or undefined: the cotangent does not exist; side effects only
+            return self._done(out)
         ac = self.sc((i, j, k))
         self._need_ok(out, "cotan-reciprocal-tangent", "cotan", ac)
         # "cotangent is the reciprocal tangent of the angle": exact cos/sin of the angle ABC ...
         exp = float(c) / fsqrt(s2)
         self.laws += 1
-        if not is_num(out.value) or abs(float(out.value) - exp) > REL * (1 + abs(exp)):
+        # d(cot)/d(angle) = 1/sin^2; the angle itself carries the relative rounding of B->A, B->C: eps * |coords| / |side|
+        cond = float(M) / fsqrt(min(uu, vv))
+        sin2 = float(s2 / (uu * vv))
+        if not is_num(out.value) or abs(float(out.value) - exp) > REL * (1 + abs(exp)) + 1e-14 * cond / sin2:
             self._bad_value("cotan-reciprocal-tangent", "cotan", "geometry.cotan", ac,
                             "cotan(%r, %r, %r) = %r, cos/sin of the angle is %r" % (self.vals(i), self.vals(j), self.vals(k), out.value, exp))
         # ... and against the library's own angle, where neither the tangent nor the cotangent is near a pole
@@ -1511,9 +1518,11 @@ class C12(Sim):
         a2 = xdot(cr, cr)  # (twice the area)^2
         l2 = [xdot(x, x) for x in e]
         lim = Fraction(1, 400)  # sin >= 0.05 at every vertex
-        if not (a2 > 0 and a2 >= lim * l2[0] * l2[1] and a2 >= lim * l2[1] * l2[2] and a2 >= lim * l2[2] * l2[0]):
+        M = Fraction(self.mag((i, j, k)))
+        if not (a2 > 0 and a2 >= lim * l2[0] * l2[1] and a2 >= lim * l2[1] * l2[2] and a2 >= lim * l2[2] * l2[0]
+                and min(l2) >= Fraction(1, 10 ** 6) * M * M):
             self.probes["degenerate_triangle"] += 1
-            return self._done(out)  # flat or needle triangle: side effects only
+            return self._done(out)  # flat / needle triangle, or tiny relative to its coordinates (ill-conditioned): side effects only
         area2 = fsqrt(a2)
         ac = "2*area<1e-11" if area2 < 1e-11 else ("2*area>1e11" if area2 > 1e11 else "regular")
         self._need_ok(out, "circumcenter-equidistant", "circumcenter", ac)
